@@ -423,6 +423,14 @@ def bounded(tier, seed):
             for b in ("", "x", sep + sep):
                 R.expect("bounded:replace-every-non-overlapping-occurrence-left-to-right",
                          f"String->replace({ls}, {lsep}, {lit(b)})", lambda r: r == s.replace(sep, b), "host str.replace")
+    # "on all strings": long strings of every length class (a divide-and-conquer or chunked rewrite shows only beyond its threshold)
+    for n in (15, 16, 17, 31, 32, 33, 63, 64, 65, 66, 67, 99, 127, 128, 129, 130, 255, 257, 300, 301, 1000, 1023):
+        s_ = "".join(chr(97 + (i * 7 + i // 5) % 26) for i in range(n))
+        R.expect("bounded:reverse", f"String->reverse({lit(s_)})", lambda r: r == s_[::-1], f"the {n} characters reversed")
+        R.expect("bounded:reverse-involution", f"String->reverse(String->reverse({lit(s_)})) == {lit(s_)}", lambda r: r is True, "TRUE")
+        R.expect("bounded:length-concat-consistency", f"[length({lit(s_)}), length(String->reverse({lit(s_)})), length(String->upper({lit(s_)})), length({lit(s_)} + {lit(s_)})]",
+                 lambda r: r == [n, n, n, 2 * n], f"[{n}, {n}, {n}, {2 * n}]")
+        R.expect("bounded:join(split(s,escape_pattern(sep)),sep)==s", f"String->join(String->split({lit(s_)}, escape_pattern('e')), 'e')", lambda r: r == s_, "the string itself")
     # "on all strings": many occurrences, replacements containing the pattern, overlapping candidates, a start offset
     for s, a, b in (("a" * 3000, "a", "bb"), ("ab" * 1500, "ab", ""), ("aaa" * 700, "aa", "a"), ("x" + "||" * 1200, "|", "||"), ("abc" * 800, "bc", "bcbc")):
         R.expect("bounded:replace-every-non-overlapping-occurrence-left-to-right", f"String->replace({lit(s)}, {lit(a)}, {lit(b)})",
